@@ -63,12 +63,25 @@ func install() {
 	})
 }
 
+var stuckRuns atomic.Int64
+
+// NoteStuck records that a controlled goroutine neither reached a gate nor returned in time. After a few of those
+// the waiting time of later runs is cut down: a library that blocks does so in thousands of schedules.
+func NoteStuck() { stuckRuns.Add(1) }
+
+func DefaultTimeout() time.Duration {
+	if stuckRuns.Load() >= 3 {
+		return 300 * time.Millisecond
+	}
+	return 20 * time.Second
+}
+
 // Install makes sure the hook is in place (NewRun does it too).
 func Install() { install() }
 
 func NewRun(n int) *Run {
 	install()
-	r := &Run{Timeout: 60 * time.Second, notify: make(chan struct{}, 64)}
+	r := &Run{Timeout: DefaultTimeout(), notify: make(chan struct{}, 64)}
 	for i := 0; i < n; i++ {
 		r.procs = append(r.procs, &proc{run: r, idx: i, release: make(chan struct{}, 1)})
 	}
